@@ -12,11 +12,11 @@ import vlib
 from vlib import fbits, bitsf
 
 LEVEL_TEXT = ('Lean 4 theorems at ℂ/ℝ, stated over the C02 propagation model (window kernel Gen.dftWindow regenerated from propagate.py) and '
-              'the dft2 model tied to fourier.py by the regenerated wiring: for tilt-free fields (propagate_dft_samples, propagate_dft_energy, propagate_dft_nested_windows are about untilted fields only; tilted fields have only the covered-period equalities below) the fields propagate_dft produces are samples of one function of '
+              'the dft2 model tied to fourier.py by the regenerated wiring: for tilt-free fields (propagate_dft_samples, propagate_dft_energy, propagate_dft_nested_windows are about untilted fields only; tilted fields have the covered-period equalities and the window bounds inside a covered period below) the fields propagate_dft produces are samples of one function of '
               'the integer frequency coordinate; for any number of tilt-free fields on the wavefront canvas, any output extent / mask box / '
               'propagation shape and any set of output samples inside one period (α = 1/K, 1/L, K, L ≥ canvas, K ≠ L allowed) the summed '
-              'intensity is ≤ Σ|total input field|², with equality over the whole period; for two calls on tilt-free fields with nested evaluated windows the first call\'s energy over any sample set is ≤ the second\'s (propagate_dft_nested_windows), nested sample sets of one call are monotone; intensity ≥ 0; a '
-              'tilted field, several fields sharing one tilt, or fields with different tilts (against the power of the coherently summed ramped inputs) keep their energy over a covered period; '
+              'intensity is ≤ Σ|total input field|², with equality over the whole period; for two calls on tilt-free fields with nested evaluated windows the first call\'s energy over any sample set is ≤ the second\'s (propagate_dft_nested_windows), and as one chain 0 ≤ E(W₁) ≤ E(W₂) ≤ input power inside one period (propagate_dft_nested_windows_le_input_power), nested sample sets of one call are monotone; intensity ≥ 0; a '
+              'tilted field, several fields sharing one tilt, or fields with different tilts (against the power of the coherently summed ramped inputs) keep their energy over a covered period, and any smaller set of samples of that period captures a non-negative energy no larger (common_tilt_window_energy_le, multi_tilt_window_energy_le); '
               'through C09 fft_eq_propagate_dft (which contains fftshift∘fft2(ortho)∘ifftshift = centred unitary dft2, C09 fft_path_is_unitary_dft_complex — cited, not restated here) the whole FFT propagator (grid shape, padding or scratch, crop; any number of '
               'fields; isotropic dx·du, or — propagate_fft_energy_consistent — a possibly non-square grid consistent with both samplings, S0·dx0·du0 = S1·dx1·du1) returns at most the input power and exactly it on the full grid; normalize_power (factor regenerated from util.py) '
               'yields power p ≥ 0 for every input of non-zero power at every input scale, a pupil images to its amplitude·mask power (through C07 Plane.multiply), and as one statement a pupil whose amplitude is normalize_power(a, p) images to total exactly p (normalized_pupil_images_to_p: monolithic mask, propagate_dft, full period). The propagate_dft correspondence runs the C02 model itself (Gen.dftWindow, Gen.maskShape/Shift, dftAlpha) '
